@@ -7,9 +7,9 @@ Open Scope Qc_scope.
 Definition qnat (n : nat) : Qc := Qc_of_Z (Z.of_nat n).
 Fixpoint qpow (b : Qc) (n : nat) : Qc := match n with O => 1 | S k => b * qpow b k end.
 
-(* init * (1 - e / tau) *)
+(* init * max(0, 1 - e / tau)   (floored at zero since fix 3f13629) *)
 Definition linear_rec (tau e : nat) (init : vec) : vec :=
-  map (fun x => x * (1 - qnat e / qnat tau)) init.
+  map (fun x => x * qpos (1 - qnat e / qnat tau)) init.
 (* init * (1 - 1/tau)^e *)
 Definition convexe_rec (tau e : nat) (init : vec) : vec :=
   map (fun x => x * qpow (1 - 1 / qnat tau) e) init.
